@@ -9,3 +9,5 @@ def run(ctx):
     # deviations; real block size) validated by TLC against CoSsdo (CoSsdoTrace)
     import sdo_trace
     sdo_trace.run(ctx, 700 if ctx.tier == "quick" else 25000, ndlg=8)
+    # the same with one client per server on a CO_SSDO_N = 2 build, frames interleaved (independence of the servers)
+    sdo_trace.run(ctx, 500 if ctx.tier == "quick" else 15000, ndlg=10, nsrv=2)
